@@ -82,6 +82,7 @@ type execution struct {
 	sched    string
 	fallback bool
 	rerunner bool // execute inside a one-shot reactive.Rerunner, as the HTTP handler does (Expensive fields then go through reactive.Cache)
+	deadline time.Duration // > 0: the computation's context gets this deadline (as a makeCtx would set one)
 	done     bool
 	val      interface{}
 	err      error
@@ -144,6 +145,9 @@ func body(c *runner.Ctx, faults bool) {
 		ex.sched = []string{"immediate", "fifo", "lifo", "seeded", "wave2", "wave3"}[c.Choose(6, "scheduler")]
 		ex.fallback = c.Choose(2, "use-batch-flag") == 1
 		ex.rerunner = c.Choose(3, "in-rerunner") == 1
+		if ex.rerunner && w.latency && c.Choose(3, "deadline") == 1 {
+			ex.deadline = time.Duration(1+c.Choose(4, "deadline-ms")) * time.Millisecond
+		}
 		execs = append(execs, ex)
 		c.Describe("exec %d [%s batchflag=%v rerunner=%v]: %s", i, ex.sched, ex.fallback, ex.rerunner, ex.text)
 	}
@@ -216,6 +220,12 @@ func body(c *runner.Ctx, faults bool) {
 					}
 					first = false
 					defer close(ran)
+					if ex.deadline > 0 {
+						c.Fault("ctx-deadline")
+						var cancel context.CancelFunc
+						ctx, cancel = context.WithTimeout(ctx, ex.deadline)
+						defer cancel()
+					}
 					ex.val, ex.err = graphql.NewExecutor(sched).Execute(ctx, schema.Query, nil, q)
 					return nil, errors.New("one-shot")
 				}, graphql.DefaultMinRerunInterval, false)
@@ -250,8 +260,16 @@ func body(c *runner.Ctx, faults bool) {
 		if len(ev.fails) == 0 {
 			c.NonTrivial()
 			c.Probe("execution-compared-with-reference")
+			if ex.err != nil && ex.deadline > 0 && (errors.Is(ex.err, context.DeadlineExceeded) || errors.Is(ex.err, context.Canceled)) {
+				// the context ended first: an error and no data is the correct outcome
+				c.Probe("execution-hit-its-deadline")
+				if ex.val != nil {
+					c.ViolateFor("C16,C01", "data-and-error", "Execute returned both data and an error")
+				}
+				continue
+			}
 			if ex.err != nil {
-				c.Violate("unexpected-error", "Execute failed although no resolver fails: %v\nquery: %s", ex.err, ex.text)
+				c.Violate("unexpected-error", "Execute failed although no resolver fails: %v\nquery: %s", errLine(ex.err), ex.text)
 				continue
 			}
 			got, err1 := normalize(ex.val)
@@ -277,6 +295,9 @@ func body(c *runner.Ctx, faults bool) {
 		}
 		if ex.val != nil {
 			c.ViolateFor("C16", "data-and-error", "Execute returned both data and an error")
+		}
+		if ex.deadline > 0 && (errors.Is(ex.err, context.DeadlineExceeded) || errors.Is(ex.err, context.Canceled)) {
+			continue // the context ended before a failing field was reached or reported
 		}
 		if !matchesSomeFailure(w, ex, ev.fails) {
 			var wants []string
